@@ -361,8 +361,7 @@ Definition in_domain (c : call) : bool :=
   | FReverse | FNreverse => true
   | FSort | FStableSort => test_strict (c_test c)
   | FMerge =>
-      test_strict (c_test c) &&                                                    (* KF ties taken from sequence-2 *)
-      forallb (fun x => forallb (fun y => negb (key_app (c_key c) x =? key_app (c_key c) y)) l2) l1
+      test_strict (c_test c)
   | FUnion | FIntersection => is_list (c_seq c) && is_list (c_seq2 c) && test_equivalence (c_test c)
   | FSetDifference => is_list (c_seq c) && is_list (c_seq2 c) && not_test_not (c_test c)
   | FSubsetp => is_list (c_seq c) && is_list (c_seq2 c) && not_test_not (c_test c)
